@@ -193,6 +193,30 @@ def run_case(case, obs):
         )
         if default:
             obs.check(matched == len(want), "record-lost", f"{key}: {len(want)} requests but {matched} matching records ({len(got)} stored)")
+    if case.get("queue_size"):
+        # "only a full sample queue ... may reduce the number of records": a sample that was handed in while the worker's queue had room
+        # has its records in the store
+        must = collections.defaultdict(list)
+        for task_name, cid, at, full in r.sampler_adds:
+            if not full:
+                must[(task_name, cid)].append(at * 1000.0)
+        for key in sorted(exp, key=str):
+            if key[3] == "sim-sub":
+                continue
+            want = sorted(must.get((key[1], key[4]), []))
+            got = sorted(d["@timestamp"] for d in act.get(key, []))
+            i = matched = 0
+            for wts in want:
+                while i < len(got) and got[i] < wts - 1.5:
+                    i += 1
+                if i < len(got) and abs(got[i] - wts) <= 1.5:
+                    i += 1
+                    matched += 1
+            obs.check(matched == len(want), "record-lost-although-queue-not-full", f"{key}: {len(want)} samples were handed in while the queue (size {case['queue_size']}) had room, {matched} of them have a record ({len(got)} stored)")
+            if len(want) < len(exp[key]):
+                obs.cls("tiny-queue-overflowed")
+                if want and max(want) > min(set(exp[key]) - set(want), default=float("inf")):
+                    obs.cls("tiny-queue-overflowed-and-had-room-again")
     # values and sample types of the records
     req_service = {}
     for q in r.requests:
